@@ -1,6 +1,6 @@
 (* C09 - pinned statements (densified one-permutation hashing). *)
 From Coq Require Import List ZArith Bool.
-From PMH Require Import Lib.ListArr Model.SuperMinHash Model.DensMinHash Gen.FlagsDens Proofs.DensMinHash Proofs.DensIdem.
+From PMH Require Import Lib.ListArr Model.SuperMinHash Model.DensMinHash Gen.FlagsDens Proofs.DensMinHash Proofs.DensIdem Proofs.DensViews.
 Import ListNotations.
 Open Scope Z_scope.
 
@@ -62,6 +62,17 @@ Proof.
   - exact (rev_densify_idempotent rep rt rt' s s' Wf).
 Qed.
 
+(* two finished sketches (each = items streamed, then extended by either densification, C09_opt_densify /
+   C09_rev_densify) that agree at positions p, q in the u64 view agree there in the float view, when an item's
+   value is a function of its hash (same generator seed) *)
+Theorem C09_views_agree : forall m large A B sA sB sA' sB' p q, items_ok m A -> items_ok m B -> value_by_hash A B ->
+  dens_items true (dens_new m large) A = Ok sA -> dens_items true (dens_new m large) B = Ok sB ->
+  dens_extends sA sA' -> dens_extends sB sB' ->
+  (forall k, (k < m)%nat -> nthb (d_init sA') k = true) -> (forall k, (k < m)%nat -> nthb (d_init sB') k = true) ->
+  (p < m)%nat -> (q < m)%nat ->
+  nthz (d_v sA') p = nthz (d_v sB') q -> nthz (d_h sA') p = nthz (d_h sB') q.
+Proof. exact views_agree_finished. Qed.
+
 Print Assumptions C09_source_flags.
 Print Assumptions C09_sketch_step.
 Print Assumptions C09_opt_densify.
@@ -71,3 +82,4 @@ Print Assumptions C09_empty_reports.
 Print Assumptions C09_empty_never_fills.
 Print Assumptions C09_holds_streamed.
 Print Assumptions C09_end_sketch_idempotent.
+Print Assumptions C09_views_agree.
